@@ -20,7 +20,7 @@ from odl.set.space import LinearSpaceElement
 from odl.space.weighting import (
     ArrayWeighting, ConstWeighting, CustomDist, CustomInner, CustomNorm,
     Weighting)
-from odl.util import indent, is_real_dtype, signature_string
+from odl.util import indent, signature_string
 from odl.util.ufuncs import ProductSpaceUfuncs
 
 __all__ = ('ProductSpace',)
@@ -1622,7 +1622,8 @@ class ProductSpaceArrayWeighting(ArrayWeighting):
         inners = np.array([x1i.inner(x2i) for x1i, x2i in zip(x1, x2)])
 
         inner = np.dot(inners, self.array)
-        if is_real_dtype(x1[0].dtype):
+        # `x1[0].dtype` does not exist for a component with mixed dtypes
+        if np.isrealobj(inners):
             return float(inner)
         else:
             return complex(inner)
